@@ -233,16 +233,11 @@ theorem step_height_mono (s : State) (op : Op) (hop : ∀ f, op ≠ .restart f) 
   · rw [hc]; exact Nat.le_refl _
   · rw [hc]; obtain ⟨h1, _, h2, _⟩ := startNewInstance_ok hst; omega
   · rw [hc]
-    rcases processMsg_cases s.q s.c s.s h m ok with he | ⟨_, _, he⟩
-    · rw [he]; exact Nat.le_refl _
-    · rw [he]; exact (uponDecided_height_ge _ _ _ _).2
+    exact processMsg_height_ge _ _ _ _ _ _
   · rw [hc]
     unfold decidedViaRunner
     simp only
-    have : s.c.height ≤ (processMsg s.q s.c s.s h m ok).1.height := by
-      rcases processMsg_cases s.q s.c s.s h m ok with he | ⟨_, _, he⟩
-      · rw [he]; exact Nat.le_refl _
-      · rw [he]; exact (uponDecided_height_ge _ _ _ _).2
+    have : s.c.height ≤ (processMsg s.q s.c s.s h m ok).1.height := processMsg_height_ge _ _ _ _ _ _
     split
     · rw [compactAt_height]; exact this
     · exact this
